@@ -60,15 +60,10 @@ type WorkerResult struct {
 	WallS       float64           `json:"wall_s"`
 	FirstSeed   uint64            `json:"first_seed"`
 	ShrinkExecs int               `json:"shrink_execs"`
+	KnownHits   map[string]int    `json:"known_hits"`
 }
 
-type knownFinding struct {
-	Property string `json:"property"`
-	Code     string `json:"code"`
-	Sig      string `json:"sig"`
-	What     string `json:"what"`
-	Status   string `json:"status"` // "open" or "fixed"
-}
+type knownFinding = KnownFinding
 
 func loadKnown(path, property string) []knownFinding {
 	var all []knownFinding
@@ -112,6 +107,7 @@ func WorkerMain(spec Spec) {
 		tier = "quick"
 	}
 	if p := os.Getenv("VERIF_REPLAY"); p != "" {
+		ActiveKnown = loadKnown(os.Getenv("VERIF_KNOWN"), spec.Property)
 		os.Exit(replayMain(spec, p, tier))
 	}
 	seedStr := os.Getenv("VERIF_SEED")
@@ -133,12 +129,13 @@ func WorkerMain(spec Spec) {
 		replayDir = "/verif/replays"
 	}
 	known := loadKnown(os.Getenv("VERIF_KNOWN"), spec.Property)
+	ActiveKnown = known
 	maxViol := envInt("VERIF_MAX_VIOLATIONS", 3)
 
 	res := WorkerResult{
 		Property: spec.Property, Engine: spec.Engine,
 		Shard: fmt.Sprintf("%d/%d", shard, nshards),
-		Stats: map[string]int64{}, Arms: map[string]int{},
+		Stats: map[string]int64{}, Arms: map[string]int{}, KnownHits: map[string]int{},
 	}
 	stateSet := map[string]struct{}{}
 	start := time.Now()
@@ -158,6 +155,9 @@ func WorkerMain(spec Spec) {
 		res.Arms[out.Arm]++
 		for k, v := range out.Stats {
 			res.Stats[k] += v
+		}
+		for k, v := range out.KnownHits {
+			res.KnownHits[k] += v
 		}
 		for _, s := range out.States {
 			if len(stateSet) < 200000 {
